@@ -107,3 +107,9 @@ claim("C11",
   "(a) all 45 registered request types, every field filled by reflection (distinct valid addresses in every string field, or generic values): GetSigners == [Creator], routable, TxConfig round trip preserved. (b) fresh app per case, real ante handler: a tx naming creator A but signed only by B is rejected before execution with no sequence bump or state change; signed by A it passes the ante handler whenever it is statelessly valid. (c) histories in which every account sends every message type with fields drawn from the owners' resources: after each message the provider record, collateral, feeds, inbox (except notifications the signer just sent), block list, primary-name pointer and set of stored files of every non-signer are unchanged; wasmbinding.PerformPostFile refuses a creator other than the contract.",
   "contract execution is not exercised (no wasm binaries offline); (b) covers the message types for which the generic generator produces a statelessly valid instance (count reported in the evidence notes).",
   "DESIGN.md section 4 C11")
+
+claim("C06",
+  "differential property test (rapid): generated ABCI histories of signed transactions executed on independent app instances (same process, delayed, fresh child process) and compared block by block",
+  "Histories of 5-25 blocks over all custom modules (several provers with equal sizes credited in the same reward block with live gauges, height-seeded attestation/report shuffles, ACL edits with several ids, bids, notifications, adversarial reflective messages) are generated while executing on one app; the recorded signed bytes are replayed on a second instance (every case), on a third one 1.1 s later (sample) and in a fresh child process of the same binary (every 10th case quick, every case thorough). AppHash, per-tx code/codespace/gas/data, and the ordered event lists of BeginBlock, every DeliverTx and EndBlock must be identical.",
+  "Falsification only; same binary and machine (no second architecture / Go version / libwasmvm available); no wasm contract execution.",
+  "DESIGN.md section 4 C06")
